@@ -57,7 +57,10 @@ def _config(draw):
            "ci": None, "pycharm": False, "xdist": None, "pyproject": {}}
     if kind == "cli":
         words = draw(cat_subsets())
-        mode = draw(st.sampled_from([None, None, "report", "review", "short-report", "disable-alone"]))
+        mode = draw(st.sampled_from([None, None, "report", "review", "short-report", "disable-alone", "empty"]))
+        if mode == "empty":
+            # `--inline-snapshot=` with an empty value (an empty shell variable): nothing is approved
+            words, mode = [], None
         if mode == "disable-alone":
             words = ["disable"]
         elif mode:
